@@ -296,6 +296,48 @@ func init() {
 		}
 		bounds := []string{"-1", "0", "0.5", "1", "1.5", "10", "-0.05", "15", "0.1", "9.9", "100", "-15", "1.05", "0", "0", "0.3", "0.00000000000000000000000000000000000000000001", "-0.00000000000000000000000000000000000000000001"}
 		rules := []string{"min", "max", "exclusiveMinimum", "exclusiveMaximum"}
+		// equality of numbers (const, enum): other spellings of the same value, and neighbours
+		respell := func(x string) []string {
+			out := []string{x}
+			hasDot, hasExp := strings.Contains(x, "."), strings.ContainsAny(x, "eE")
+			if !hasExp {
+				out = append(out, x+"e0", x+"E+0", x+"e-0")
+				if hasDot {
+					out = append(out, x+"0", x+"00e0")
+					i := strings.Index(x, ".")
+					neg := strings.HasPrefix(x, "-")
+					m := strings.TrimLeft(strings.TrimPrefix(x[:i], "-")+x[i+1:], "0")
+					if m == "" {
+						m = "0"
+					}
+					if neg {
+						m = "-" + m
+					}
+					out = append(out, m+"e-"+fmt.Sprint(len(x)-i-1))
+				} else if x != "0" && x != "-0" {
+					out = append(out, x+"0e-1", x+".0", x+"00e-2")
+				}
+			}
+			return out
+		}
+		for _, x := range []string{"1.5", "2", "0.5", "10", "100", "-3", "0.25", "-0.5", "12.75", "7", "0", "-0", "0.0", "1.0", "1.50"} {
+			t := strings.TrimPrefix(x, "-")
+			others := append(respell(x), "1.51", "3", "-"+t, t, "20", "1.5e1")
+			for _, a := range others {
+				ta := strings.TrimPrefix(a, "-")
+				if strings.HasPrefix(ta, "0e") || strings.HasPrefix(ta, "0E") || strings.HasPrefix(t, "0e") {
+					continue
+				}
+				for _, form := range []string{"const", "enum"} {
+					schema := fmt.Sprintf("%s // {const: true}", x)
+					if form == "enum" {
+						schema = fmt.Sprintf("%s // {enum: [7777, %s]}", x, x)
+					}
+					o := validateNum(schema, a)
+					w.Write(map[string]interface{}{"op": "eq", "form": form, "x": bytesToInts([]byte(x)), "a": bytesToInts([]byte(a)), "ok": o.OK, "code": o.Code, "kind": o.Kind, "schema": schema})
+				}
+			}
+		}
 		// every float edge against every rule and the bounds next to it
 		for _, a := range floatEdges {
 			for ri, rule := range rules {
